@@ -56,7 +56,7 @@ type c10Cfg struct {
 	M      int    `json:"mem_limit"` // SecRequestBodyInMemoryLimit (request side; 0 = not configured, defaults to the limit)
 	Action string `json:"action"`    // Reject | ProcessPartial
 	Mode   string `json:"mode"`      // verifbody | raw | urlencoded (request) ; verifbody | variable (response)
-	Via    string `json:"via"`       // directives | config (coraza.WAFConfig methods where they exist)
+	Via    string `json:"via"`       // directives | config (coraza.WAFConfig methods where they exist) | ctl (a larger directive limit lowered to L by ctl:requestBodyLimit / ctl:responseBodyLimit for the transaction)
 }
 
 type c10Chunk struct {
@@ -156,7 +156,13 @@ func (c c10Cfg) text() string {
 	sb.WriteString("SecRuleEngine On\n")
 	dir := c.Via != "config"
 	if c.Side == "req" {
-		if dir {
+		if c.Via == "ctl" {
+			fmt.Fprintf(&sb, "SecRequestBodyAccess On\nSecRequestBodyLimit %d\n", 4*c.L+16)
+			if c.M > 0 {
+				fmt.Fprintf(&sb, "SecRequestBodyInMemoryLimit %d\n", c.M)
+			}
+			fmt.Fprintf(&sb, "SecAction \"id:6,phase:1,pass,nolog,ctl:requestBodyLimit=%d\"\n", c.L)
+		} else if dir {
 			fmt.Fprintf(&sb, "SecRequestBodyAccess On\nSecRequestBodyLimit %d\n", c.L)
 			if c.M > 0 {
 				fmt.Fprintf(&sb, "SecRequestBodyInMemoryLimit %d\n", c.M)
@@ -174,7 +180,10 @@ func (c c10Cfg) text() string {
 		sb.WriteString("SecRule REQUEST_BODY \"@verifrec v5 true\" \"id:4,phase:5,pass,nolog\"\n")
 		sb.WriteString("SecRule INBOUND_DATA_ERROR \"@verifrec e5 true\" \"id:5,phase:5,pass,nolog\"\n")
 	} else {
-		if dir {
+		if c.Via == "ctl" {
+			fmt.Fprintf(&sb, "SecResponseBodyAccess On\nSecResponseBodyLimit %d\nSecResponseBodyMimeType text/plain\n", 4*c.L+16)
+			fmt.Fprintf(&sb, "SecAction \"id:6,phase:3,pass,nolog,ctl:responseBodyLimit=%d\"\n", c.L)
+		} else if dir {
 			fmt.Fprintf(&sb, "SecResponseBodyAccess On\nSecResponseBodyLimit %d\nSecResponseBodyMimeType text/plain\n", c.L)
 		}
 		fmt.Fprintf(&sb, "SecResponseBodyLimitAction %s\n", c.Action)
@@ -1016,8 +1025,11 @@ func (u c10Unit) cost() int {
 }
 
 func c10Via(L, M int) string {
-	if (L+M)%2 == 1 {
+	switch (L + 2*M) % 3 {
+	case 1:
 		return "config"
+	case 2:
+		return "ctl"
 	}
 	return "directives"
 }
@@ -1137,8 +1149,11 @@ func (r *c10Runner) runLarge(u c10Unit) {
 		if rng.IntN(2) == 0 {
 			cfg.Action = "ProcessPartial"
 		}
-		if rng.IntN(3) == 0 {
+		switch rng.IntN(4) {
+		case 0:
 			cfg.Via = "config"
+		case 1:
+			cfg.Via = "ctl"
 		}
 		L := c10PickLimit(rng)
 		if i == 0 && u.Salt%4 == 0 {
@@ -1389,7 +1404,7 @@ func c10Replay(w *fw.W, raw json.RawMessage) {
 func init() {
 	fw.Register(&fw.Prop{
 		ID: "C10", Level: "exploration",
-		Rule: "small scope (exhaustive): every limit L (quick 1-6, thorough 1-7 plus L=8 with in-memory limit in {1,4,7,8}), every in-memory limit M in 1..L (request side), every body size n in 0..min(L+3, quick 8 / thorough 10), every composition of n into chunks, every assignment of {Write*Body, Read*BodyFrom(reader with Len - rotating over *bytes.Reader, *strings.Reader and the same two partly consumed by the caller beforehand, i.e. Len() < Size()), Read*BodyFrom(reader hiding Len)} to the chunks, both limit actions, request and response side; the observation mode (recording body processor / RAW / URLENCODED / RESPONSE_BODY) rotates over the cases. Direct BodyBuffer round trips (verifapi.NewBodyBuffer): every L, M<=L, n<=L+2 and composition, read back through interleaved independent readers, Reset, reuse. Large scope (sampled): limits 8 B - 1 MiB, random bytes (all 256 values), sizes and cuts placed at and next to M and L, eight entry-point kinds, limits set by directives or coraza.WAFConfig. A case is non-trivial when a spill file was created, the body was refused, or partial processing was triggered (bare buffer: spill or refused write); distinct by structural hash of (configuration, body, chunk sizes, entry points).",
+		Rule: "small scope (exhaustive): every limit L (quick 1-6, thorough 1-7 plus L=8 with in-memory limit in {1,4,7,8}), every in-memory limit M in 1..L (request side), every body size n in 0..min(L+3, quick 8 / thorough 10), every composition of n into chunks, every assignment of {Write*Body, Read*BodyFrom(reader with Len - rotating over *bytes.Reader, *strings.Reader and the same two partly consumed by the caller beforehand, i.e. Len() < Size()), Read*BodyFrom(reader hiding Len)} to the chunks, both limit actions, request and response side; the observation mode (recording body processor / RAW / URLENCODED / RESPONSE_BODY) rotates over the cases. Direct BodyBuffer round trips (verifapi.NewBodyBuffer): every L, M<=L, n<=L+2 and composition, read back through interleaved independent readers, Reset, reuse. Large scope (sampled): limits 8 B - 1 MiB, random bytes (all 256 values), sizes and cuts placed at and next to M and L, eight entry-point kinds, limits set by directives, by coraza.WAFConfig, or by a larger directive lowered to L for the transaction with ctl:requestBodyLimit / ctl:responseBodyLimit (the three rotate in the small scope as well). A case is non-trivial when a spill file was created, the body was refused, or partial processing was triggered (bare buffer: spill or refused write); distinct by structural hash of (configuration, body, chunk sizes, entry points).",
 		Assumptions: []string{
 			"oracle = cumulative-size model: ProcessPartial or limit not reached -> stored bytes, processor input and body variable are exactly the first min(n, L) supplied bytes and the body phase runs once; Reject -> interruption (413 request / 500 response) at the first call whose cumulative size is >= L and at no other call, stored bytes are a prefix of the supplied bytes of length between the accepted bytes and L",
 			"under Reject the driver stops writing at the first interruption (connector behaviour); the byte count returned by write calls is never judged; how much of the refusing call is stored (nothing for slices and sized readers, up to the limit for unsized readers) is not pinned and not judged beyond 'prefix, <= limit'",
